@@ -108,6 +108,26 @@ func gen(c *hmain.Ctx) {
 		p := hx.L(hx.L(hx.I(0), hx.I(retry+2)), hx.L(hx.I(r.Intn(10)), hx.I(0)), hx.L(hx.I(0), hx.I(0)))
 		add("dq-interleave", hx.L(cfgSx(r.Range(1, 2), 2, 15, retry, true, 1, r.Range(2, 5)), hx.L(mkAdder(r.Range(4, 8), false)), p, hx.L(hx.I(0), hx.I(0))))
 	}
+	// 4. Stop() arrives while a failed batch is between two attempts (or inside one): the batch must still go exactly one way —
+	//    the remaining attempts are made, then success / give-up; never committed by the main output with retries pending
+	for i := 0; i < 40*c.Scale; i++ {
+		nextID = 0
+		retry := r.Range(2, 6)
+		if r.Chance(1, 4) {
+			retry = -1 - r.Intn(3)
+		}
+		dq := r.Bool()
+		fails := retry + 2 // exhausts
+		switch {
+		case retry < 0:
+			fails = r.Range(3, 6)
+		case r.Bool():
+			fails = r.Range(2, retry+1) // succeeds after some failures
+		}
+		// every attempt of the first batch takes 1-3 ms, the pause between attempts is 1 ms: Stop after 2-9 ms lands in the retry loop
+		p := hx.L(hx.L(hx.I(r.Range(1, 3)), hx.I(fails)), hx.L(hx.I(r.Intn(3)), hx.I(0)), hx.L(hx.I(0), hx.I(r.Intn(2))))
+		add("stop-mid-retry", hx.L(cfgSx(r.Range(2, 3), r.Range(1, 2), 10, retry, dq, 1, 2), hx.L(mkAdder(r.Range(2, 5), false)), p, hx.L(hx.I(1), hx.I(r.Range(2, 9)))))
+	}
 	runJobs(c, jobs)
 }
 
